@@ -406,8 +406,16 @@ EXPLANATION = ("Tx.sig_hash_legacy / sig_hash_bip143 / sig_hash_bip341 / sig_has
                "standard hash type, compared with independent executable specs of the three algorithms (hashes uninterpreted: equality of "
                "digests is equality of preimages); two-step query/edit/query histories with symbolic edits for the memoised midstates.")
 CATEGORY = "other"
-LEVEL_TEXT = ("Deductive for fixed shapes + bounded grid/history companions. Claimed 'other': many obligations FAIL on the pinned tree "
-              "(legacy and BIP143 for every hash type except ALL, BIP341 annex handling, never-invalidated midstate caches) and the "
-              "BIP341 script path is bounded only.")
+LEVEL_TEXT = ("Deductive: (a) all three algorithms for EVERY transaction shape -- Tx.sig_hash_legacy (script code = redeem script, incl. the "
+              "1<<248 results for out-of-range indices), Tx.hash_prevouts / hash_outputs / sig_hash_bip143 (P2WSH script code) and "
+              "Tx.sha_prevouts / sha_outputs / sig_hash_bip341 (key path, no annex) are proved equal to SignatureHash / the BIP143 "
+              "preimage / the BIP341 SigMsg for any number of inputs and outputs, any input index and each of the seven hash "
+              "types by loop invariants over lists of symbolic length (verif/contracts/listloops.py, spec verif/specs/listser.py); "
+              "(b) legacy, BIP143 (P2WPKH script code), BIP341 key path and the dispatcher for fixed 1-2 input / 1-2 output shapes with "
+              "symbolic fields and every hash type; (c) two-step query/edit/query histories with symbolic edits.  Bounded companions: "
+              "shape grid up to 6x6, histories up to 6 steps, BIP341 script path and annex.  Claimed 'other' because the history clause "
+              "and the BIP341 script path are decided by bounded exploration only.  The defects these checks found on the pinned tree "
+              "(hash types other than ALL, annex handling, never-invalidated midstate caches) are repaired by fix: commits, see "
+              "KNOWN_FINDINGS.jsonl.")
 LEVEL_NOTE = ("trusted: pyvc translation (A-ENGINE), spec functions (A-SPEC, checked against published vectors), harness functions, CPython builtin "
               "contracts (A-BUILTIN), hash functions uninterpreted; termination not verified")
